@@ -768,6 +768,12 @@ class NetworkGraph(AbstractBaseIR):
         # names generated for the edge operator must neither collide with the target variable (which may itself be
         # called `weight`, `x_in0`, ... or like the source variable) nor with each other
         taken = {tvar}
+        # ... nor with a post-synaptic variable that a coupling function of one of the edges reads from the target node
+        # (unless that variable is the source variable itself, as in a recurrent Kuramoto-type coupling)
+        for _evm, (_snode, _sop, _svar) in zip(edge_var_maps, sources):
+            for _info in _evm.values():
+                if _info.get('role') == 'target' and not (_snode == tnode and _info['op'] == _sop and _info['var'] == _svar):
+                    taken.add(_info['var'])
 
         def _fresh(name: str) -> str:
             while name in taken:
